@@ -480,5 +480,55 @@ func c18RepeatCalls(rc *RunCtx) {
 			}
 		}
 	}
+	// well-formed attestations in which several signers at once are not enabled (rotated-out sets, outsiders): whichever
+	// of them a diagnostic names, it must be the same one every time
+	outs := AttesterPool[5:10]
+	for c := 0; c < rc.Pick(10, 30); c++ {
+		t := 2 + c%4
+		var pool []*ref.Key
+		nOut := 2 + c%3
+		if nOut > t {
+			nOut = t
+		}
+		perm := r.Perm(len(outs))
+		for i := 0; i < nOut; i++ {
+			pool = append(pool, outs[perm[i]])
+		}
+		permIn := r.Perm(len(keys))
+		for i := 0; len(pool) < t; i++ {
+			pool = append(pool, keys[permIn[i]])
+		}
+		signers := ref.SortByAddr(pool)
+		msg := structured(70+c, byte(3*c))
+		att := ref.HonestAttestation(msg, signers, c%3)
+		results := make([]string, 400)
+		var wg sync.WaitGroup
+		for g := 0; g < 8; g++ {
+			wg.Add(1)
+			go func(g int) {
+				defer wg.Done()
+				for i := g; i < len(results); i += 8 {
+					err := keeper.VerifyAttestationSignatures(msg, append([]byte(nil), att...), attesters, uint32(t))
+					if err == nil {
+						results[i] = "<nil>"
+					} else {
+						results[i] = err.Error()
+					}
+				}
+			}(g)
+		}
+		wg.Wait()
+		rc.Cov.Assert("C18.repeat-call-determinism")
+		rc.Cov.Evaluations += len(results)
+		rc.Cov.Distinct(fmt.Sprintf("repeat-outsiders|%d|%d|%d", c, t, nOut))
+		for _, x := range results[1:] {
+			if x != results[0] {
+				rc.Report(Violation{Props: []string{"C18"}, Monitor: "repeat-call-determinism", Sig: "C18:verifier-result-varies",
+					Detail: fmt.Sprintf("VerifyAttestationSignatures returned different results for identical arguments (%d of %d signers not enabled): %q vs %q", nOut, t, results[0], x),
+					Case:   map[string]string{"message": hex.EncodeToString(msg), "attestation": hex.EncodeToString(att), "threshold": fmt.Sprint(t)}})
+				break
+			}
+		}
+	}
 	rc.Cov.Cell("C18_modes", "repeat-calls")
 }
